@@ -18,3 +18,16 @@ Theorem C10_device_states_stay_wellformed :
   forall l c l', dexec l c = Some l' -> NoDup (bodies l) -> NoDup (bodies l').
 Proof. exact dexec_keeps_nodup_proved. Qed.
 Print Assumptions C10_device_states_stay_wellformed.
+
+(* ASA crypto maps (Cisco/Vpn.v): the state the resume check starts from after k
+   commands is a state the accepted run passes through, the last one is its result;
+   the oracle used for it is equality of the entries with their references expanded. *)
+From NA Require Import Cisco.Vpn Cisco.VpnProofs.
+Theorem C10_crypto_prefix_states_are_run_states :
+  forall d cs d', vrun d cs 0 = (d', 0, 0) -> vprefix d cs (List.length cs) = d'.
+Proof. exact vprefix_full_is_final. Qed.
+Print Assumptions C10_crypto_prefix_states_are_run_states.
+
+Theorem C10_crypto_oracle_is_expanded_equality : forall a b, vequiv a b = true <-> vsem a = vsem b.
+Proof. exact vequiv_is_equal_semantics. Qed.
+Print Assumptions C10_crypto_oracle_is_expanded_equality.
